@@ -1,5 +1,7 @@
 // Copyright 2020 TiKV Project Authors. Licensed under Apache-2.0.
 
+use std::collections::VecDeque;
+
 use rtrb::Consumer;
 use rtrb::Producer;
 use rtrb::PushError;
@@ -14,7 +16,7 @@ pub fn bounded<T>(capacity: usize) -> (Sender<T>, Receiver<T>) {
     (
         Sender {
             tx,
-            pending_messages: Vec::new(),
+            pending_messages: VecDeque::new(),
         },
         Receiver { rx },
     )
@@ -22,7 +24,8 @@ pub fn bounded<T>(capacity: usize) -> (Sender<T>, Receiver<T>) {
 
 pub struct Sender<T> {
     tx: Producer<T>,
-    pending_messages: Vec<T>,
+    // Messages that `force_send` could not push, oldest first.
+    pending_messages: VecDeque<T>,
 }
 
 pub struct Receiver<T> {
@@ -37,11 +40,11 @@ pub struct ChannelClosed;
 
 impl<T> Sender<T> {
     pub fn send(&mut self, value: T) -> Result<(), ChannelFull> {
-        while let Some(value) = self.pending_messages.pop() {
+        while let Some(value) = self.pending_messages.pop_front() {
             #[cfg(fastrace_verif)]
             self.verif_push_point("replay");
             if let Err(PushError::Full(value)) = self.tx.push(value) {
-                self.pending_messages.push(value);
+                self.pending_messages.push_front(value);
                 return Err(ChannelFull);
             }
         }
@@ -52,19 +55,21 @@ impl<T> Sender<T> {
     }
 
     pub fn force_send(&mut self, value: T) {
-        while let Some(value) = self.pending_messages.pop() {
+        while let Some(pending) = self.pending_messages.pop_front() {
             #[cfg(fastrace_verif)]
             self.verif_push_point("replay");
-            if let Err(PushError::Full(value)) = self.tx.push(value) {
-                self.pending_messages.push(value);
-                break;
+            if let Err(PushError::Full(pending)) = self.tx.push(pending) {
+                // Keep the order: the new message must not overtake the ones already waiting.
+                self.pending_messages.push_front(pending);
+                self.pending_messages.push_back(value);
+                return;
             }
         }
 
         #[cfg(fastrace_verif)]
         self.verif_push_point("force");
         if let Err(PushError::Full(value)) = self.tx.push(value) {
-            self.pending_messages.push(value);
+            self.pending_messages.push_back(value);
         }
     }
 }
